@@ -37,6 +37,10 @@ pub struct AuthSpec {
     pub signed: Option<(String, bool, String, String)>,
     pub username: Option<String>,
     pub password: Option<Vec<u8>>,
+    /// how a pre-encoded signature is spelled: bit (i % 32) set => the i-th escape uses lower-case hex digits;
+    /// a non-zero upper half => some unreserved characters are escaped too (legal percent-encoding, RFC 3986 2.1 / 2.3)
+    #[serde(default)]
+    pub pre_style: u64,
 }
 
 #[derive(Clone, Debug, Serialize, Deserialize, PartialEq, Eq)]
@@ -74,8 +78,8 @@ fn base64ish() -> BoxedStrategy<String> {
 }
 
 fn auth_strategy() -> BoxedStrategy<AuthSpec> {
-    (option::weighted(0.8, uri_safe()), option::weighted(0.6, (base64ish(), any::<bool>(), uri_safe(), uri_safe())), option::weighted(0.6, prop_oneof![3 => "[a-zA-Z0-9_ -]{0,12}", 1 => "[a-z]{0,5}\\?[a-z=&]{0,6}", 1 => "[\u{e9}\u{4e16}a-z]{1,6}"]), option::weighted(0.5, proptest::collection::vec(any::<u8>(), 0..24)))
-        .prop_map(|(authorizer, signed, username, password)| AuthSpec { authorizer, signed, username, password })
+    (option::weighted(0.8, uri_safe()), option::weighted(0.6, (base64ish(), any::<bool>(), uri_safe(), uri_safe())), option::weighted(0.6, prop_oneof![3 => "[a-zA-Z0-9_ -]{0,12}", 1 => "[a-z]{0,5}\\?[a-z=&]{0,6}", 1 => "[\u{e9}\u{4e16}a-z]{1,6}"]), option::weighted(0.5, proptest::collection::vec(any::<u8>(), 0..24)), prop_oneof![3 => Just(0u64), 2 => any::<u32>().prop_map(|x| x as u64), 1 => Just(0xffff_ffffu64), 2 => any::<u64>()])
+        .prop_map(|(authorizer, signed, username, password, pre_style)| AuthSpec { authorizer, signed, username, password, pre_style })
         .boxed()
 }
 
@@ -148,13 +152,36 @@ fn pct_encode_all_reserved(s: &str) -> String {
     out
 }
 
+/// a pre-encoded spelling of `s`: reserved characters always escaped, hex-digit case and optional escapes of
+/// unreserved characters chosen by `style` (see AuthSpec::pre_style); style 0 = upper-case, reserved only
+fn pct_encode_styled(s: &str, style: u64) -> String {
+    let mut out = String::new();
+    let mut escapes = 0u32;
+    for (i, b) in s.bytes().enumerate() {
+        let unreserved = b.is_ascii_alphanumeric() || b == b'-' || b == b'_' || b == b'.' || b == b'~';
+        let extra = (style >> 32) != 0 && ((style >> 32).wrapping_mul(0x9E37_79B9).wrapping_add(i as u64 * 0x85EB_CA6B) >> 7) % 6 == 0;
+        if unreserved && !extra {
+            out.push(b as char);
+        } else {
+            let lower = (style >> (escapes % 32)) & 1 == 1;
+            escapes += 1;
+            if lower {
+                out.push_str(&format!("%{:02x}", b));
+            } else {
+                out.push_str(&format!("%{:02X}", b));
+            }
+        }
+    }
+    out
+}
+
 fn make_builder(case: &C20Case) -> Result<(AwsClientBuilder, Option<(String, Option<Vec<u8>>)>), String> {
     let mut auth_result = None;
     let builder = match &case.auth {
         Some(a) => {
             let mut ab = match &a.signed {
                 Some((raw, pre, key, value)) => {
-                    let supplied = if *pre { pct_encode_all_reserved(raw) } else { raw.clone() };
+                    let supplied = if *pre { pct_encode_styled(raw, a.pre_style) } else { raw.clone() };
                     AwsCustomAuthOptions::builder_signed(a.authorizer.as_deref(), &supplied, key, value)
                 }
                 None => AwsCustomAuthOptions::builder_unsigned(a.authorizer.as_deref()),
@@ -337,6 +364,12 @@ impl Property for C20 {
                 }
                 if let Some((raw, pre, key, value)) = &a.signed {
                     labels.push(if *pre { "signature_pre_encoded".into() } else { "signature_raw".into() });
+                    if *pre && a.pre_style != 0 {
+                        let supplied = pct_encode_styled(raw, a.pre_style);
+                        if supplied != pct_encode_all_reserved(raw) {
+                            labels.push("signature_pre_encoded_nonuniform_spelling".into());
+                        }
+                    }
                     if raw.contains('+') || raw.contains('/') || raw.contains('=') {
                         labels.push("signature_has_reserved_chars".into());
                     }
@@ -403,7 +436,7 @@ impl Property for C20 {
     }
 
     fn rule_text(&self) -> String {
-        "AWS builder inputs: authorizer names and token key names/values over the URI-safe alphabet plus valid %XX escapes, signatures = base64-like strings (with +, /, =) supplied raw or percent-encoded, user names incl. '?', '&', '=' and multi-byte characters, arbitrary binary passwords, user connect options over every field (client id absent / empty / given) and client options over protocol mode x drain policy set/unset x retries set/unset x every other field; oracle: client id non-empty, the user's when non-empty, fresh per build otherwise, every other connect / client option unchanged, user name = user's + '?' + query that parses (split '&', first '=', one percent-decode) back to the configured authorizer name, token key -> value and to the RAW signature in both input forms, OneAtATime + 2 retries iff (3.1.1 and neither set); non-trivial = signed custom auth, or 3.1.1 mode, or no / empty user client id; distinct = hash of the case".to_string()
+        "AWS builder inputs: authorizer names and token key names/values over the URI-safe alphabet plus valid %XX escapes, signatures = base64-like strings (with +, /, =) supplied raw or percent-encoded (escapes in upper-, lower- or mixed-case hex, optionally escaping unreserved characters as well), user names incl. '?', '&', '=' and multi-byte characters, arbitrary binary passwords, user connect options over every field (client id absent / empty / given) and client options over protocol mode x drain policy set/unset x retries set/unset x every other field; oracle: client id non-empty, the user's when non-empty, fresh per build otherwise, every other connect / client option unchanged, user name = user's + '?' + query that parses (split '&', first '=', one percent-decode) back to the configured authorizer name, token key -> value and to the RAW signature in both input forms, OneAtATime + 2 retries iff (3.1.1 and neither set); non-trivial = signed custom auth, or 3.1.1 mode, or no / empty user client id; distinct = hash of the case".to_string()
     }
 
     fn assumptions(&self) -> Vec<String> {
